@@ -10,6 +10,7 @@ from .engine import Report
 from .tlc import SPEC, VERIF
 
 REGISTRY: dict = {}
+UNION_CFGS = {'quick': 'MC_Grammar_union_q.cfg', 'thorough': 'MC_Grammar_union_t.cfg'}
 TAGGED_CFGS = {'quick': 'MC_Grammar_tagged_q.cfg', 'thorough': 'MC_Grammar_tagged_t.cfg'}
 EXC_CFGS = {'quick': 'MC_Grammar_exc_q.cfg', 'thorough': 'MC_Grammar_exc_t.cfg'}
 COND_CFGS = {'quick': 'MC_Grammar_cond_q.cfg', 'thorough': 'MC_Grammar_cond_t.cfg'}
@@ -124,7 +125,7 @@ def c09(tier: str) -> int:
     ])
 
 
-C05_CLAUSES = {'serialise-failed', 'not-interchange', 'serialised-form', 'reparse-failed', 'reparse-differs',
+C05_CLAUSES = {'reparse-shadowed-by-earlier-union-member', 'serialise-failed', 'not-interchange', 'serialised-form', 'reparse-failed', 'reparse-differs',
                'reserialise-failed', 'reserialise-differs'}
 
 
@@ -134,10 +135,12 @@ def c05(tier: str) -> int:
         (SCALAR_CFGS, C05_CLAUSES, conv.ev_roundtrip, {}),
         (CLS_CFGS, C05_CLAUSES, conv.ev_roundtrip, {}),
         (TAGGED_CFGS, C05_CLAUSES, conv.ev_roundtrip, {}),
+        (UNION_CFGS, C05_CLAUSES, conv.ev_roundtrip, {}),
     ])
 
 
-C06_CLAUSES = {'fixpoint-refused', 'fixpoint-differs', 'native-refused', 'native-differs', 'twice-refused', 'twice-differs'}
+C06_CLAUSES = {'fixpoint-shadowed-by-earlier-union-member', 'native-shadowed-by-earlier-union-member',
+               'twice-shadowed-by-earlier-union-member', 'fixpoint-refused', 'fixpoint-differs', 'native-refused', 'native-differs', 'twice-refused', 'twice-differs'}
 
 
 @check('C06')
@@ -145,6 +148,7 @@ def c06(tier: str) -> int:
     return _multi_grammar('C06', tier, [
         (SCALAR_CFGS, C06_CLAUSES, conv.ev_fixpoint, {}),
         (CLS_CFGS, C06_CLAUSES, conv.ev_fixpoint, {}),
+        (UNION_CFGS, C06_CLAUSES, conv.ev_fixpoint, {}),
     ])
 
 
@@ -298,7 +302,6 @@ _EVENT_MAKERS.update({'tagmsg': conv.ev_tagmsg})
 
 C07_CLAUSES = {'node-kind', 'children-keys', 'missing-fields', 'extra-fields', 'product-actual', 'sum-arity', 'leaf-actual',
                'duplicate-node', 'length-bounds', 'child-not-standalone'}
-UNION_CFGS = {'quick': 'MC_Grammar_union_q.cfg', 'thorough': 'MC_Grammar_union_t.cfg'}
 
 
 @check('C07')
